@@ -261,6 +261,21 @@ def run_case(case, work):
     return res
 
 
+def run_probe(p):
+    """_generate_all_faces called directly on a few connectivity rows of one type (all six
+    solid types, also those no mesh generator produces): the groups of face rows it returns"""
+    import numpy as np
+    try:
+        fd = build({'nodes': [[1, [0, 0, 0]], [2, [1, 0, 0]], [3, [0, 1, 0]], [4, [0, 0, 1]]],
+                    'blocks': {'tet': [[1, [1, 2, 3, 4]]]}})
+        r = fd._generate_all_faces(np.array(p['rows'], dtype=np.int64), p['type'])
+        if not isinstance(r, tuple):
+            return {'error': 'not_a_tuple', 'msg': type(r).__name__}
+        return {'groups': [np.asarray(g).astype(np.int64).tolist() for g in r]}
+    except Exception as e:          # noqa
+        return {'error': type(e).__name__, 'msg': str(e)[:300]}
+
+
 def main():
     spec = json.loads(open(sys.argv[1]).read())
     os.makedirs(spec['work'], exist_ok=True)
@@ -269,6 +284,8 @@ def main():
     with contextlib.redirect_stdout(sink):
         for case in spec['cases']:
             out.append(run_case(case, spec['work']))
+        if spec.get('probes'):
+            out.append({'id': 'probes', 'rows': [run_probe(p) for p in spec['probes']]})
     with open(spec['out'], 'w') as f:
         json.dump(out, f)
 
